@@ -51,9 +51,11 @@ def histories(ctx, model_ok, tmp, mode, trust=False):
         bb.registry.insertDimensionData("detector", *[{"instrument": "I", "id": i, "full_name": f"d{i}"} for i in range(1, N)])
         d = DatasetType("dt", {"instrument", "detector"}, "StructuredDataDict", universe=bb.dimensions)
         bb.registry.registerDatasetType(d)
+        bb.registry.registerDatasetType(DatasetType("dt2", {"instrument", "detector"}, "StructuredDataDict", universe=bb.dimensions))
         return bb, d
 
     b, dt = furnish(root, "base")
+    dt2 = b.get_dataset_type("dt2")
     if trust and not getattr(b._datastore, "trustGetRequest", False):
         ctx.broken.append("harness: the datastore is not in trust mode")
     src, _ = furnish(os.path.join(area, "src"), "base")
@@ -184,6 +186,10 @@ def histories(ctx, model_ok, tmp, mode, trust=False):
                 with open(srcf, "w") as fh:
                     fh.write(f"n: {ids[0]}\n")
                 rr = [DatasetRef(dt, {"instrument": "I", "detector": i}, run=run) for i in ids]
+                if len(ids) >= 2 and rng.random() < 0.35:
+                    # two datasets of *different dataset types* with one and the same data ID and run, in one file
+                    rr[1] = DatasetRef(dt2, {"instrument": "I", "detector": ids[0]}, run=run)
+                    ctx.count("shared-file-two-dataset-types")
                 b.ingest(FileDataset(path=srcf, refs=rr), transfer=how)
                 if how == "copy":
                     os.remove(srcf)
@@ -329,15 +335,45 @@ def histories(ctx, model_ok, tmp, mode, trust=False):
                 if trust and set(ids) - live - trashed:
                     # removeRuns looks its datasets up without dimension records, which a trusting datastore cannot format
                     continue
-                b.removeRuns([run], unstore=True)
-                b.registry.registerRun(run)
-                registered.difference_update(ids)
-                live.difference_update(ids)
-                orphan.difference_update(ids)
-                trashed.clear()
-                req.append(f"art trash {','.join(map(str, ids)) or '-'}"), impl.append("ok")
-                line = "art empty"
-                ops.append(f"removeRuns {run[-1]} {ids}")
+                if not trust and rng.random() < 0.35:
+                    # the run is, for the moment, a child of a CHAINED collection: the registry refuses to remove it, the call
+                    # fails as a whole — and must not have removed a single artifact
+                    from lsst.daf.butler import CollectionType as _CT
+
+                    holder = f"holds_{run}_{step}"
+                    b.registry.registerCollection(holder, _CT.CHAINED)
+                    b.registry.setCollectionChain(holder, [run])
+                    try:
+                        b.removeRuns([run], unstore=True)
+                        refused = False
+                    except Exception:
+                        refused = True
+                    b.registry.setCollectionChain(holder, [])
+                    b.registry.removeCollection(holder)
+                    ops.append(f"removeRuns-refused {run[-1]} {ids}")
+                    ctx.count("removeRuns-refused")
+                    if not refused:
+                        viol(f"removeRuns of a run that is a child of a CHAINED collection was accepted", f"rmrun-chained-accepted:{ops}", {"kind": "art-history", "ops": ops})
+                        break
+                    # (whatever the failed call moved to the trash and back is judged by the observation below; the next emptying of
+                    # the trash must find nothing of it)
+                    b._datastore.emptyTrash()
+                    trashed.clear()
+                    req.append("art empty"), impl.append("ok")
+                    line = None
+                    ids = None
+                if ids is None:
+                    pass
+                else:
+                  b.removeRuns([run], unstore=True)
+                  b.registry.registerRun(run)
+                  registered.difference_update(ids)
+                  live.difference_update(ids)
+                  orphan.difference_update(ids)
+                  trashed.clear()
+                  req.append(f"art trash {','.join(map(str, ids)) or '-'}"), impl.append("ok")
+                  line = "art empty"
+                  ops.append(f"removeRuns {run[-1]} {ids}")
             if line is not None:
                 req.append(line), impl.append("ok")
             if trust:
